@@ -43,11 +43,10 @@ def pinch_analysis_service(data: Any, project_name: str = "Project", is_return_f
         tables ready for serialisation.
     """
     # Validate request data using Pydantic model
-    if isinstance(data, TargetInput):
-        # model_validate returns the caller's own instance; preparation rewrites zone labels and
-        # utility fields in the schema objects, so work on a private copy
-        data = data.model_copy(deep=True)
-    request_data = TargetInput.model_validate(data)
+    # model_validate keeps the caller's own schema instances (the model itself, or stream / utility / zone-tree
+    # objects placed in a dictionary); preparation rewrites zone labels and utility fields in them, so work on
+    # a private copy
+    request_data = TargetInput.model_validate(data).model_copy(deep=True)
 
     # Formulate the top level zone with all subzones and approperiate input data
     master_zone = prepare_problem(
